@@ -34,11 +34,20 @@ def main():
     ap.add_argument("--checks", default=None)
     ap.add_argument("--tier", default="quick")
     ap.add_argument("--skip-confirm", action="store_true")
+    ap.add_argument("--history", default=None, help="note on how the checks were strengthened for this change")
     a = ap.parse_args()
     wt, sd = a.worktree, a.seed_dir
     patch = os.path.join(sd, "patch.diff")
     demo = os.path.join(sd, "demo.py")
     meta = {"seed_id": a.seed_id, "breaks_property": a.prop, "source": "independent sub-agent given only the property text and a scratch worktree"}
+    old_meta = os.path.join(VERIF, "seeded", a.seed_id, "meta.json")
+    if a.skip_confirm and os.path.exists(old_meta):
+        # re-evaluation after strengthening: keep the confirmation recorded by the first evaluation
+        prev = json.load(open(old_meta))
+        meta.update({k: v for k, v in prev.items() if k in ("patch_applies", "tests_pass_with_change", "tests_tail", "demo_exit_with_change",
+                                                            "demo_exit_without_change", "demo_output_with_change", "confirmed", "history")})
+    if a.history:
+        meta["history"] = a.history
     env = {k: v for k, v in os.environ.items() if k not in ("PYTHONPATH",)}
     env["PYTHONDONTWRITEBYTECODE"] = "1"
     if not a.skip_confirm:
